@@ -99,7 +99,12 @@ CLAIMED['C02'] = dict(
           'weighted mean and variance maximise the weighted Gaussian log-likelihood per coordinate (diagonal/spherical); the cACG '
           'surrogate touches and minorises -D ln q; induction over the iteration history: along every guard-free prefix the '
           'log-likelihood is non-decreasing whenever each M-step does not decrease Q; the log_likelihood method (weights included, '
-          'stable logsumexp) equals sum_n ln sum_k pi_k p_k. Not proved: that the full-covariance Gaussian, cACG matrix and Watson '
+          'stable logsumexp) equals sum_n ln sum_k pi_k p_k. Fully discharged instance (no hypothesis about E- or M-step left): one '
+          'EM step of the diagonal-covariance GMM (Bayes posterior, weight_sal, g_mean, g_cov_diag of the model) never decreases the '
+          'log-likelihood for any K, D, N, data and current model, hence neither does any number of steps, and the executable '
+          'whole-loop model gmm_fit of Model/GMMLoop.v - the function compared with GMMTrainer.fit(iterations=n) on every run - '
+          'is proved to BE that iteration on the real-number instance (C02_gmm_loop_model_monotone; guard: posterior floor, mass '
+          'floor inactive, new variances positive; guard shown satisfiable). Not proved: that the full-covariance Gaussian, cACG matrix and Watson '
           'spline M-steps do not decrease Q - this hypothesis is EVALUATED on every recorded step of the implementation. Tie to '
           '/repo on every run: recorded trajectories of cACGMM, cWMM, GMM (3 covariance types), GCACGMM over all tying / saliency / '
           'normalisation options: independent log-likelihood non-decreasing on guard-free prefixes, Q(new|old) >= Q(old|old) per '
